@@ -140,15 +140,41 @@ func wireMulticast() bool {
 		// ipchub hands out groups 235.0.0.0+n and ports 16666+n from a per-process counter:
 		// give this process a region of its own, other check processes share the host
 		h := uint32(os.Getpid())*2654435761 + uint32(time.Now().UnixNano())
-		for i := uint32(0); i < h%(1<<22); i++ {
+		for i := uint32(0); i < h%(1<<24); i++ {
 			utils.Multicast.NextIP()
 		}
-		for i := uint32(0); i < (h>>8)%20000; i++ {
+		for i := uint32(0); i < (h>>8)%15000; i++ {
 			utils.Multicast.NextPort()
 		}
 	})
 	return wireMcastErr == nil
 }
+
+// wireSafeMulticastPorts is called before a RECORD creates a stream (ipchub then
+// takes the next four ports of its pool 16666..39999 for the stream's multicast
+// proxy): it moves the pool on until those ports lie below the host's ephemeral
+// range (32768+), where the OS-chosen ports of every unicast UDP socket on this
+// host come from.
+func wireSafeMulticastPorts() {
+	if !wireMulticast() {
+		return
+	}
+	for utils.Multicast.NextPort() >= 31990 {
+	}
+}
+
+var wireJoinCount uint64
+
+// joinMulticast is rtspc.JoinMulticast (with a development switch that makes every
+// third join fail the way a port held by another process does).
+func joinMulticast(group string, port int) (*net.UDPConn, error) {
+	if os.Getenv("VERIF_WIRE_FAKE_PORT_TAKEN") != "" && atomic.AddUint64(&wireJoinCount, 1)%3 == 0 {
+		return nil, &rtspc.MulticastJoinError{Group: group, Port: port, Err: errors.New("bind: address already in use (simulated)")}
+	}
+	return rtspc.JoinMulticast(group, port)
+}
+
+const wireClassPortTaken = "wire: multicast port taken by another process on this host (member skipped)"
 
 func genWirePlan(t *rapid.T) *wplan {
 	pl := &wplan{H265: rapid.IntRange(0, 2).Draw(t, "h265") == 0, Audio: rapid.Bool().Draw(t, "audio")}
@@ -492,7 +518,7 @@ func (c *wclient) attachRTSP(s *srv.Server, path string) (err error) {
 				if port <= 0 {
 					continue
 				}
-				u, err := rtspc.JoinMulticast(group, port)
+				u, err := joinMulticast(group, port)
 				if err != nil {
 					return err
 				}
@@ -872,6 +898,7 @@ type wworld struct {
 
 	endsWithMixedAudience int
 	stopsWithOthers       int
+	portTaken             bool // a multicast member was left out for want of a local socket
 }
 
 func (w *wworld) detail(extra map[string]any) map[string]any {
@@ -903,6 +930,7 @@ func (w *wworld) newGen(kind string) *wgen {
 	if kind == "direct" {
 		g.st = srv.PublishStream(w.path, w.sdp)
 	} else {
+		wireSafeMulticastPorts()
 		rc, err := rtspc.Dial(w.s.Addr(), wireBound())
 		if err != nil {
 			w.t.Fatalf("machinery: publisher dial: %v", err)
@@ -1047,6 +1075,17 @@ func (w *wworld) attach(kind string, mustWork bool) *wclient {
 		c.gen = w.genIndex(g)
 	}
 	err := c.attach(w.s, w.path)
+	var je *rtspc.MulticastJoinError
+	if errors.As(err, &je) {
+		// the server names group and port; whether this host can give the member a socket
+		// there is neither ipchub's nor the property's business: the member is left out
+		evid.Class(wireClassPortTaken)
+		w.portTaken = true
+		w.note("%s: left out, %v", c, err)
+		c.teardown(w.s, w.path)
+		c.disconnect()
+		return c
+	}
 	if err != nil {
 		if mustWork {
 			w.t.Fatalf("machinery: %s could not attach: %v", c, err)
@@ -1438,6 +1477,7 @@ func TestWireQuietDisconnect(t *testing.T) {
 			if !wireMulticast() {
 				continue
 			}
+			wireSafeMulticastPorts()
 			rc, err := rtspc.Dial(s.Addr(), wireBound())
 			if err != nil {
 				t.Fatalf("machinery: publisher dial: %v", err)
@@ -1454,7 +1494,13 @@ func TestWireQuietDisconnect(t *testing.T) {
 		rtsp0, flv0, wsp0 := srv.RtspConns(), srv.FlvConns(), srv.WspConns()
 		c := &wclient{kind: kind}
 		if err := c.attach(s, path); err != nil {
+			c.disconnect()
 			srv.Unpublish(st)
+			var je *rtspc.MulticastJoinError
+			if errors.As(err, &je) {
+				evid.Class(wireClassPortTaken)
+				continue
+			}
 			t.Fatalf("machinery: %s attach: %v", kind, err)
 		}
 		// some media first, so that the client has seen the stream running
@@ -2008,40 +2054,51 @@ func TestWireMulticastMembers(t *testing.T) {
 		srv.WaitFor(wireBound(), func() bool { return media.Get(w.path) == nil })
 	}
 	for _, how := range []string{"teardown", "disconnect"} {
-		// (a) first member leaves, second stays
-		w := newWorld()
-		evid.Eval(1)
-		m1 := w.attach("mcast", true)
-		m2 := w.attach("mcast", true)
-		w.checkCounts("two members attached")
-		w.flows(0, "two members attached")
-		w.stop(m1, how) // judges: proxy still consuming, m2 open and receiving
-		_ = m2
-		w.end(w.gens[0], "publisher")
-		w.released(0, "publisher")
-		cleanup(w)
-		// the stream ends under two members
-		w = newWorld()
-		evid.Eval(1)
-		w.attach("mcast", true)
-		w.attach("mcast", true)
-		w.attach("tcp", true)
-		w.flows(0, "two members and a tcp player attached")
-		w.end(w.gens[0], "delete")
-		w.released(0, "delete")
-		cleanup(w)
-		// (b) the last member of a replaced stream leaves
-		w = newWorld()
-		evid.Eval(1)
-		m := w.attach("mcast", true) // the proxy is consumer #1 of stream #0
-		w.newGen("record")
-		p := w.attach("tcp", true) // consumer #1 of stream #1
-		w.checkCounts("replacement")
-		w.flows(0, "replacement")
-		w.flows(1, "replacement")
-		w.stop(m, how)
-		_ = p
-		cleanup(w)
+		// a witness round is abandoned when this host cannot give a member its socket
+		func() { // (a) first member leaves, second stays
+			w := newWorld()
+			defer cleanup(w)
+			evid.Eval(1)
+			m1 := w.attach("mcast", true)
+			w.attach("mcast", true)
+			if w.portTaken {
+				return
+			}
+			w.checkCounts("two members attached")
+			w.flows(0, "two members attached")
+			w.stop(m1, how) // judges: proxy still consuming, the other member open and receiving
+			w.end(w.gens[0], "publisher")
+			w.released(0, "publisher")
+		}()
+		func() { // the stream ends under two members
+			w := newWorld()
+			defer cleanup(w)
+			evid.Eval(1)
+			w.attach("mcast", true)
+			w.attach("mcast", true)
+			w.attach("tcp", true)
+			if w.portTaken {
+				return
+			}
+			w.flows(0, "two members and a tcp player attached")
+			w.end(w.gens[0], "delete")
+			w.released(0, "delete")
+		}()
+		func() { // (b) the last member of a replaced stream leaves
+			w := newWorld()
+			defer cleanup(w)
+			evid.Eval(1)
+			m := w.attach("mcast", true) // the proxy is consumer #1 of stream #0
+			if w.portTaken {
+				return
+			}
+			w.newGen("record")
+			w.attach("tcp", true) // consumer #1 of stream #1
+			w.checkCounts("replacement")
+			w.flows(0, "replacement")
+			w.flows(1, "replacement")
+			w.stop(m, how)
+		}()
 	}
 	evid.Class("wire witness: multicast members leave / stream ends / replaced stream")
 }
@@ -2064,6 +2121,10 @@ func TestWireMulticastRestart(t *testing.T) {
 		w := &wworld{t: t, s: s, pl: &wplan{Publisher: "record"}, path: fmt.Sprintf("/c03w/r%d", atomic.AddUint64(&wireCases, 1)), sdp: mediah.SDP(esgen.H264, false)}
 		g := w.newGen("record")
 		a := w.attach("mcast", true)
+		if w.portTaken { // this host cannot give the member its socket: no verdict from this round
+			g.rec.Close()
+			continue
+		}
 		w.checkCounts("the first member attached")
 		w.flows(0, "the first member attached")
 		// from now on the stream is silent: the next wake-up of the proxy's delivery
@@ -2108,6 +2169,11 @@ func TestWireMulticastRestart(t *testing.T) {
 			evid.Violation(t, "wire-consumer-count", w.detail(nil), "the last multicast member left and the stream still reports %d consumers after %v", g.st.ConsumerCount(), wireBound())
 		}
 		b := w.attach("mcast", true)
+		if w.portTaken {
+			finish()
+			g.rec.Close()
+			continue
+		}
 		w.checkCounts("a new member joined the stopped proxy")
 		w.flows(0, "a new member joined the stopped proxy")
 		finish() // the old goroutine winds down now
